@@ -353,4 +353,261 @@ theorem OpStart_facts {c : Nat} (h : OpStart c) :
   · subst h; decide
   · subst h; decide
 
+/-! ### mnemonic -/
+
+theorem prefix_lemma : ∀ (P mn A r : Txt), (∀ c ∈ P, isAlnumC c = true) → Stops isAlnumC A →
+    mn ++ A = P ++ r → isPrefixOf P mn = true := by
+  intro P
+  induction P with
+  | nil => intro mn A r _ _ _; cases mn <;> rfl
+  | cons p P' ih =>
+    intro mn A r hP hA h
+    cases mn with
+    | nil =>
+      simp only [List.nil_append] at h
+      have := hA p (by simp [h])
+      rw [hP p (by simp)] at this; cases this
+    | cons m mn' =>
+      simp only [List.cons_append, List.cons.injEq] at h
+      simp only [isPrefixOf, Bool.and_eq_true, beq_iff_eq]
+      exact ⟨h.1.symm, ih mn' A r (fun c hc => hP c (by simp [hc])) hA h.2⟩
+
+theorem validMnemonic_spec {mn : Txt} (h : validMnemonic mn = true) :
+    ∃ m mn', mn = m :: mn' ∧ isAlphaC m = true ∧ (∀ c ∈ mn, isAlnumC c = true) ∧
+      isPrefixOf [100, 97, 116, 97, 49, 54] mn = false ∧ isPrefixOf [100, 97, 116, 97, 51, 50] mn = false := by
+  cases mn with
+  | nil => simp [validMnemonic] at h
+  | cons m mn' =>
+    simp only [validMnemonic, Bool.and_eq_true, Bool.not_eq_true', List.all_eq_true] at h
+    obtain ⟨⟨⟨hm, hr⟩, h16⟩, h32⟩ := h
+    refine ⟨m, mn', rfl, by rw [← spec_isAlpha]; exact hm, ?_, h16, h32⟩
+    intro c hc
+    rcases List.mem_cons.mp hc with h | h
+    · subst h; simp [isAlnumC, ← spec_isAlpha, hm]
+    · rw [← spec_isAlnum]; exact hr c h
+
+theorem untilComma_id {w : Txt} (h : ∀ c ∈ w, c ≠ 44) : untilComma w = w := by
+  induction w with
+  | nil => rfl
+  | cons c cs ih =>
+    have hc := h c (by simp)
+    simp [untilComma, hc, ih (fun d hd => h d (by simp [hd]))]
+
+theorem mnemonic_ok {mn b A : Txt} (hmn : validMnemonic mn = true) (hb : AllWs b)
+    (hA : ∀ c, A.head? = some c → isWs c = true ∨ c = 35 ∨ c = 47) :
+    word isMnC (mnPrefixes (b ++ (mn ++ A)).length (b ++ (mn ++ A))) = some (mn, A) ∧
+    untilComma mn = mn := by
+  obtain ⟨m, mn', rfl, hm, hal, h16, h32⟩ := validMnemonic_spec hmn
+  have hmw : isWs m = false := alnum_not_ws m (hal m (by simp))
+  have hsk : skipWs (b ++ (m :: mn' ++ A)) = m :: mn' ++ A := by
+    rw [skipWs_append hb]; exact skipWs_cons_not hmw
+  have hAal : Stops isAlnumC A := by
+    intro c hc; rcases hA c hc with h | h | h
+    · exact ws_not_alnum c h
+    · subst h; decide
+    · subst h; decide
+  have hAmn : Stops isMnC A := by
+    intro c hc; rcases hA c hc with h | h | h
+    · exact ws_not_mn c h
+    · subst h; decide
+    · subst h; decide
+  have hpre : mnPrefixes (b ++ (m :: mn' ++ A)).length (b ++ (m :: mn' ++ A)) = m :: mn' ++ A := by
+    obtain ⟨n, hn⟩ : ∃ n, (b ++ (m :: mn' ++ A)).length = n + 1 :=
+      ⟨b.length + mn'.length + A.length, by simp; omega⟩
+    rw [hn]
+    unfold mnPrefixes
+    split
+    · rename_i r heq
+      rw [hsk] at heq
+      have := prefix_lemma [100, 97, 116, 97, 49, 54] (m :: mn') A r (by decide) hAal heq
+      rw [h16] at this; cases this
+    · rename_i r heq
+      rw [hsk] at heq
+      have := prefix_lemma [100, 97, 116, 97, 51, 50] (m :: mn') A r (by decide) hAal heq
+      rw [h32] at this; cases this
+    · exact hsk
+  constructor
+  · rw [hpre]
+    have := word_append (p := isMnC) (b := []) (w := m :: mn') (t := A) AllWs.nil (by simp)
+      (fun c hc => by simp [isMnC, hal c hc]) (fun c hc => alnum_not_ws c (hal c hc)) hAmn
+    simpa using this
+  · exact untilComma_id (fun c hc => by
+      intro e; subst e; have := hal 44 hc; simp [isAlnumC, isAlphaC, isDigitC] at this)
+
+/-! ### the first three stages fail on an instruction line -/
+
+theorem alnum_labelRest (c : Nat) (h : isAlnumC c = true) : isLabelRest c = true := by
+  simp [isLabelRest, isIdRest, h]
+
+theorem stages_fail {mn b A : Txt} (hmn : validMnemonic mn = true) (hb : AllWs b)
+    (hA : ∀ c, A.head? = some c → isWs c = true ∨ c = 35 ∨ c = 47)
+    (hA2 : ∀ c, nextC A = some c → OpStart c) :
+    commentLine (b ++ (mn ++ A)) = none ∧ labelLine (b ++ (mn ++ A)) = none ∧
+    directiveLine (b ++ (mn ++ A)) = none := by
+  obtain ⟨m, mn', rfl, hm, hal, _, _⟩ := validMnemonic_spec hmn
+  have hmw : isWs m = false := alnum_not_ws m (hal m (by simp))
+  have hmf : m ≠ 35 ∧ m ≠ 47 ∧ m ≠ 46 ∧ isDigitC m = false ∧ isIdFirst m = true := by
+    simp [isAlphaC, isDigitC, isIdFirst] at *; omega
+  simp only [List.cons_append]
+  have hsk : skipWs (b ++ m :: (mn' ++ A)) = m :: (mn' ++ A) := by
+    rw [skipWs_append hb]; exact skipWs_cons_not hmw
+  have hnx : nextC (b ++ m :: (mn' ++ A)) = some m := by simp [nextC, hsk]
+  refine ⟨?_, ?_, ?_⟩
+  · unfold commentLine commentStart
+    rw [hsk]
+    split
+    · rename_i heq; simp at heq; exact absurd heq.1 hmf.1
+    · rename_i heq; simp at heq; exact absurd heq.1 hmf.2.1
+    · rfl
+  · have hido : idOffset (b ++ m :: (mn' ++ A)) = none :=
+      idOffset_none (by intro d hd; rw [hnx] at hd; cases hd; exact hmf.2.2.2.1)
+    have hAstop : ∀ c, A.head? = some c → isLabelRest c = false ∧ c ≠ 58 := by
+      intro c hc; rcases hA c hc with h | h | h
+      · refine ⟨?_, by intro e; subst e; simp [isWs] at h⟩
+        simp [isLabelRest, ws_not_idRest c h]; simp [isWs] at h; omega
+      · subst h; decide
+      · subst h; decide
+    have hnt := nameTail_ok (restP := isLabelRest) (r := mn') (k := A)
+      (fun c hc => alnum_labelRest c (hal c (by simp [hc]))) hAstop
+    have hrel : relocation A = none := relocation_none (by
+      intro e; exact (OpStart_facts (hA2 64 e)).1 rfl)
+    have h58 : lit [58] (skipWs A) = none := lit1_none (by
+      rw [nextC_skipWs]; intro e; exact (OpStart_facts (hA2 58 e)).2.1 rfl)
+    have hid : identifier isLabelRest false (b ++ m :: (mn' ++ A)) = some (m :: mn', skipWs A) := by
+      simp [identifier, optR, hido, hsk, skipWs_cons_not hmw, nameRaw, hmf.2.2.2.2, hnt, hrel]
+    simp [labelLine, hid, h58]
+  · simp [directiveLine, lit1_none (t := b ++ m :: (mn' ++ A)) (x := 46)
+      (by rw [hnx]; intro e; cases e; exact hmf.2.2.1 rfl)]
+
+/-! ### the round trip on the tab-expanded line -/
+
+theorem renderEnd_head (l : Line) (ht : blank l.trail = true) :
+    (∀ c, (renderEnd l).head? = some c → isWs c = true ∨ c = 35 ∨ c = 47) ∧
+    (∀ c, nextC (renderEnd l) = some c → c = 35 ∨ c = 47) := by
+  have htw := blank_allWs ht
+  unfold renderEnd
+  have key : ∀ X : Txt, (X = [] ∨ ∃ r, X = 35 :: r ∨ X = 47 :: r) →
+      (∀ c, (l.trail ++ X).head? = some c → isWs c = true ∨ c = 35 ∨ c = 47) ∧
+      (∀ c, nextC (l.trail ++ X) = some c → c = 35 ∨ c = 47) := by
+    intro X hX
+    constructor
+    · intro c hc
+      cases htr : l.trail with
+      | cons d ds => rw [htr] at hc htw; simp at hc; subst hc; exact Or.inl (htw _ (by simp))
+      | nil =>
+        rw [htr] at hc; simp only [List.nil_append] at hc
+        rcases hX with h | ⟨r, h | h⟩ <;> subst h <;> simp at hc <;> subst hc <;> simp
+    · intro c hc
+      rw [nextC_append htw] at hc
+      rcases hX with h | ⟨r, h | h⟩ <;> subst h
+      · simp [nextC] at hc
+      · rw [nextC_cons (by decide)] at hc; cases hc; exact Or.inl rfl
+      · rw [nextC_cons (by decide)] at hc; cases hc; exact Or.inr rfl
+  apply key
+  cases l.comment with
+  | none => exact Or.inl rfl
+  | some c =>
+    refine Or.inr ?_
+    cases hs : c.slashes
+    · exact ⟨renderWords c.words ++ c.last, Or.inl (by simp [renderComment, hs])⟩
+    · exact ⟨47 :: (renderWords c.words ++ c.last), Or.inr (by simp [renderComment, hs])⟩
+
+theorem validOps_rest : ∀ (i : Nat) (ops : List (OpLayout × Operand)), validOps (i + 1) ops = true →
+    RestOk ops := by
+  intro i ops
+  induction ops generalizing i with
+  | nil => intro _ p hp; cases hp
+  | cons q qs ih =>
+    intro h p hp
+    obtain ⟨L, o⟩ := q
+    simp only [validOps, Bool.and_eq_true, Bool.or_eq_true, Bool.not_eq_true', beq_iff_eq] at h
+    obtain ⟨⟨⟨⟨hv, hbl⟩, hbare⟩, _⟩, hrest⟩ := h
+    rcases List.mem_cons.mp hp with h | h
+    · subst h
+      refine ⟨hv, hbl, ?_⟩
+      rcases hbare with h | h
+      · exact h
+      · omega
+    · exact ih (i + 1) hrest p h
+
+/-- **core of the round trip**: on the rendering of any instruction line of the domain, with any
+    layout (blanks *and* tabs around every token), the four-stage parser — run on the text as it
+    stands — returns exactly the AST that was rendered -/
+theorem roundtrip_expanded (l : Line) (hv : l.valid = true) :
+    parseExpanded (renderLine l) = .ok l.expected := by
+  simp only [Line.valid, Bool.and_eq_true, decide_eq_true_eq] at hv
+  obtain ⟨⟨⟨⟨⟨hmn, hind⟩, htr⟩, hlen⟩, hops⟩, hcm⟩ := hv
+  have hb := blank_allWs hind
+  obtain ⟨hE, hE44, htail⟩ := renderEnd_facts l htr hcm
+  obtain ⟨hEh, hEn⟩ := renderEnd_head l htr
+  have htxt : renderLine l = l.indent ++ (l.mn ++ (renderOps l.ops ++ renderEnd l)) := rfl
+  -- facts about the text after the mnemonic, and the result of `instruction`
+  have main : (∀ c, (renderOps l.ops ++ renderEnd l).head? = some c → isWs c = true ∨ c = 35 ∨ c = 47) ∧
+      (∀ c, nextC (renderOps l.ops ++ renderEnd l) = some c → OpStart c) ∧
+      ((tail (restSlots 3 (opt operandFirst (renderOps l.ops ++ renderEnd l)).2).2).map fun c =>
+        (l.mn, (opt operandFirst (renderOps l.ops ++ renderEnd l)).1.toList ++
+          (restSlots 3 (opt operandFirst (renderOps l.ops ++ renderEnd l)).2).1, c)) =
+        some (l.mn, l.ops.map (fun p => rawOp p.1 p.2), expectedComment l) := by
+    cases hops' : l.ops with
+    | nil =>
+      simp only [renderOps, List.nil_append, List.map_nil]
+      refine ⟨hEh, fun c hc => (hEn c hc).elim (fun h => Or.inr (Or.inr (Or.inr (Or.inr (Or.inr (Or.inr (Or.inl h)))))))
+        (fun h => Or.inr (Or.inr (Or.inr (Or.inr (Or.inr (Or.inr (Or.inr h))))))), ?_⟩
+      have hnone : operandFirst (renderEnd l) = none := operandFirst_none (fun c hc => hE.2 c hc)
+      have hs := slots_ok hE hE44 3 [] (by simp) (by intro p hp; cases hp) (skipWs (renderEnd l))
+        (by simp [cont])
+      simp only [opt, hnone, Option.toList_none, List.nil_append]
+      rw [hs.1, tail_congr hs.2, htail]; rfl
+    | cons p rest =>
+      obtain ⟨L, o⟩ := p
+      rw [hops'] at hops hlen
+      simp only [validOps, Bool.and_eq_true, Bool.or_eq_true, Bool.not_eq_true', bne_iff_ne, ne_eq,
+        beq_iff_eq] at hops
+      obtain ⟨⟨⟨⟨hvo, hbl⟩, _⟩, hpre⟩, hrest⟩ := hops
+      have hprene : L.pre ≠ [] := by
+        rcases hpre with h | h
+        · exact absurd trivial h
+        · intro e; simp [e] at h
+      obtain ⟨hprew, hpostw⟩ := post_allWs L hbl
+      have hrok := validOps_rest 0 rest hrest
+      rw [renderOps_cons]
+      refine ⟨?_, ?_, ?_⟩
+      · intro c hc
+        cases hp : L.pre with
+        | nil => exact absurd hp hprene
+        | cons d ds => rw [hp] at hc hprew; simp at hc; subst hc; exact Or.inl (hprew _ (by simp))
+      · intro c hc
+        obtain ⟨d, hd, hdo⟩ := renderOperand_next L hbl o hvo (L.post ++ cont (renderEnd l) rest) hprew
+        rw [hd] at hc; cases hc; exact hdo
+      · obtain ⟨r1, hr1, hfirst, _⟩ := operand_ok L hbl o hvo hprew (tail_cont hE L hpostw rest)
+        have hs := slots_ok hE hE44 3 rest (by simp at hlen; omega) hrok r1
+          (by rw [hr1, skipWs_append hpostw])
+        simp only [opt, hfirst, Option.toList_some, List.map_cons, List.cons_append, List.nil_append]
+        rw [hs.1, tail_congr hs.2, htail]; rfl
+  obtain ⟨hA, hA2, hins⟩ := main
+  obtain ⟨hc1, hc2, hc3⟩ := stages_fail hmn hb hA hA2
+  obtain ⟨hword, hunt⟩ := mnemonic_ok hmn hb hA
+  have hinstr : instruction (renderLine l) =
+      some (l.mn, l.ops.map (fun p => rawOp p.1 p.2), expectedComment l) := by
+    rw [htxt]
+    unfold instruction
+    rw [hword]
+    simp only [Option.bind_some, hunt]
+    exact hins
+  have hpost : postOps (l.ops.map fun p => rawOp p.1 p.2) = .ok (l.ops.map (·.2)) := by
+    apply postOps_map
+    intro p hp
+    cases hops' : l.ops with
+    | nil => rw [hops'] at hp; cases hp
+    | cons q qs =>
+      rw [hops'] at hp hops
+      obtain ⟨L, o⟩ := q
+      simp only [validOps, Bool.and_eq_true] at hops
+      rcases List.mem_cons.mp hp with h | h
+      · subst h; exact hops.1.1.1.1
+      · exact (validOps_rest 0 qs hops.2 p h).1
+  rw [htxt] at hinstr ⊢
+  simp only [parseExpanded, hc1, hc2, hc3, instructionLine, hinstr, hpost]
+  rfl
+
 end OsacaVerif.ParseX86
